@@ -580,6 +580,18 @@ func (dbPT *DBPTInfo) NewMergeSetIndex(rp string, timeRangeInfo *meta.ShardTimeR
 			dbPT.indexBuilder[indexID].Relations[uint32(index.MergeSet)] = indexRelation
 		}
 		err = indexBuilder.Open()
+		if err == nil && indexBuilder.GetIndexID() != DelIndexBuilderId {
+			// a series index created after the policy's delete index exists must consult the
+			// deleted ids as well (SetDelMergeSetForEachMergeSet only reaches the indexes that
+			// exist when the delete index is created or loaded)
+			if del := dbPT.delIndexBuilderMap[rp]; del != nil {
+				delMergeSet, ok1 := del.GetPrimaryIndex().(*tsi.MergeSetIndex)
+				curMerge, ok2 := indexBuilder.GetPrimaryIndex().(*tsi.MergeSetIndex)
+				if ok1 && ok2 {
+					curMerge.SetDeleteMergeSet(delMergeSet)
+				}
+			}
+		}
 	}
 
 	return indexID, rpPath, lock, indexBuilder, err
